@@ -5,8 +5,15 @@ Theorems about the guarded-step model `P3R.Shape` (`Model/Shape.lean`) of the re
 verifier's circuit builders, for EVERY shape vector and EVERY environment (no bound on list
 lengths, counts, degrees, word size, field parameters).
 
-FULL STATEMENTS (the property as worded) — both are FALSE of the current code; their negations
-are proved on concrete witnesses in `P3R/Witness/C15.lean` and replayed on the real builders:
+This is the variant for the tree with fixes C15-1, C15-2, C15-3 applied (C15-2 touches only the
+batch builder, which is not modelled). Findings F9b, F9c, F9o and the overflow part of F9i are
+repaired: what used to be a hypothesis inside `PanicGuards` is now proved for every shape
+(`fri_pow_mismatch_err`, `fri_height_overflow_err`, `open_input_height_err`,
+`uni_pow_mismatch_err`, `uni_pow_mismatch_outcome`).
+
+FULL STATEMENTS (the property as worded) — both are still FALSE of the patched code (the
+unrepaired findings F9a, F9d–F9i remain); their negations are proved on concrete witnesses in
+`P3R/Witness/C15.lean` and replayed on the real builders:
 
     no_panic           : ∀ e s, verifyUni e s ≠ .panic
     malformed_rejected : ∀ e s, ¬ WellFormed e s → verifyUni e s = .err
@@ -23,7 +30,7 @@ What is proved here:
   range (this is "validate ok → expected shape" for the STARK layer).
 * `uni_ok_fri_validated` — … and the FRI layer: as many PoW witnesses as commit-phase
   commitments (≥ 1), every query carries exactly that many openings with the schedule of the
-  first query, the final polynomial has `2^logFinalPolyLen` coefficients, at least one query,
+  first query, every `log_arity` is at least 1, the final polynomial has `2^logFinalPolyLen` coefficients, at least one query,
   every query opens exactly one batch per commitment round, and every commit cap is a non-empty
   power of two when MMCS verification is on.
   NOT implied (and false today, see the witnesses): the number of queries and the cap sizes are
@@ -34,6 +41,12 @@ What is proved here:
   `uni_panic_iff_not_guards_prefix` is `run_panic_iff`.
 * `uni_malformed_rejected_partial` — under `PanicGuards`, a shape that violates any validated
   component is rejected with an error.
+* `fri_pow_mismatch_err`, `uni_pow_mismatch_err`, `uni_pow_mismatch_outcome` — F9b / F9c repaired:
+  a commitments / PoW-witnesses count mismatch is an error for every environment and shape.
+* `fri_height_overflow_err` — F9i overflow part repaired: out-of-range FRI parameters whose sum
+  overflows a word are an error (the `two_adic_generator` part of F9i remains a panic).
+* `open_input_height_err` — F9o repaired: a matrix taller than the folding schedule reaches is an
+  error.
 * `honest_shapes_ok` — non-vacuity: the honest shapes of the three uni bases used by the
   correspondence satisfy `PanicGuards` and are accepted.
 -/
@@ -117,13 +130,15 @@ theorem uni_no_panic_partial (e : Env) (s : UniShape) (h : PanicGuards e s = tru
   have := (List.all_eq_true.mp h) c hc
   simpa [hk] using this
 
-/-- What `PanicGuards` contains for the STARK layer and the FRI challenge slice: the arithmetic
-side conditions the Rust never checks. -/
+/-- What `PanicGuards` still contains for the STARK and FRI layers: the arithmetic side conditions
+the Rust never checks. After fixes C15-1 / C15-3 the challenge-slice condition
+(`commitCaps.length ≤ powWitnesses`), the `log_max_height` overflow and the matrix-height
+subtraction are no longer among them; what is left of the second is the unchecked
+`log_arities.iter().sum()`. -/
 theorem panicGuards_necessary (e : Env) (s : UniShape) (h : PanicGuards e s = true) :
     s.degreeBits < e.wordBits ∧ e.airPrepWidth ≤ s.prepWidth ∧
     s.degreeBits + e.logQd ≤ e.twoAdicity ∧
-    s.fri.commitCaps.length ≤ s.fri.powWitnesses ∧
-    logMaxHeight e s.fri < 2 ^ e.wordBits ∧ logMaxHeight e s.fri ≤ e.twoAdicity ∧
+    sum s.fri.logArities < 2 ^ e.wordBits ∧ logMaxHeight e s.fri ≤ e.twoAdicity ∧
     (∀ q ∈ s.fri.queries, ∀ la ∈ q.steps,
       la < e.wordBits ∧ (2 ^ la - 1) * e.dim < 2 ^ e.wordBits ∧ (2 ^ la - 1) * e.dim ≤ e.maxAlloc) := by
   have hall := List.all_eq_true.mp h
@@ -131,19 +146,16 @@ theorem panicGuards_necessary (e : Env) (s : UniShape) (h : PanicGuards e s = tr
     intro b hb
     have := hall _ hb
     simpa [partialStep] using this
-  refine ⟨?_, ?_, ?_, ?_, ?_, ?_, ?_⟩
-  · have := key _ (by simp [uniChecks] : partialStep (decide (s.degreeBits < e.wordBits)) ∈ uniChecks e s)
+  refine ⟨?_, ?_, ?_, ?_, ?_, ?_⟩
+  · have := key _ (by simp [uniChecks, uniPrefix] : partialStep (decide (s.degreeBits < e.wordBits)) ∈ uniChecks e s)
     simpa using this
-  · have := key _ (by simp [uniChecks] : partialStep (decide (e.airPrepWidth ≤ s.prepWidth)) ∈ uniChecks e s)
+  · have := key _ (by simp [uniChecks, uniPrefix] : partialStep (decide (e.airPrepWidth ≤ s.prepWidth)) ∈ uniChecks e s)
     simpa using this
-  · have := key _ (by simp [uniChecks] :
+  · have := key _ (by simp [uniChecks, uniPrefix] :
       partialStep (decide (s.degreeBits + e.logQd ≤ e.twoAdicity)) ∈ uniChecks e s)
     simpa using this
   · have := key _ (by simp [uniChecks, friVerifyChecks] :
-      partialStep (decide (s.fri.commitCaps.length ≤ s.fri.powWitnesses)) ∈ uniChecks e s)
-    simpa using this
-  · have := key _ (by simp [uniChecks, friVerifyChecks] :
-      partialStep (decide (logMaxHeight e s.fri < 2 ^ e.wordBits)) ∈ uniChecks e s)
+      partialStep (decide (sum s.fri.logArities < 2 ^ e.wordBits)) ∈ uniChecks e s)
     simpa using this
   · have := key _ (by simp [uniChecks, friVerifyChecks] :
       partialStep (decide (logMaxHeight e s.fri ≤ e.twoAdicity)) ∈ uniChecks e s)
@@ -151,7 +163,7 @@ theorem panicGuards_necessary (e : Env) (s : UniShape) (h : PanicGuards e s = tr
   · intro q hq la hla
     have mem : ∀ c ∈ allocStep e la, c ∈ uniChecks e s := by
       intro c hc
-      simp only [uniChecks, allocFri, List.mem_append, List.mem_flatMap]
+      simp only [uniChecks, uniPrefix, allocFri, List.mem_append, List.mem_flatMap]
       exact Or.inl (Or.inl (Or.inl (Or.inl (Or.inl ⟨q, hq, la, hla, hc⟩))))
     refine ⟨?_, ?_, ?_⟩
     · have := key _ (mem (partialStep (decide (la < e.wordBits))) (by simp [allocStep]))
@@ -186,21 +198,21 @@ theorem uni_ok_validated (e : Env) (s : UniShape) (h : verifyUni e s = .ok) : Va
     intro b hb
     have := hall _ hb
     simpa [must] using this
-  have h1 := key _ (by simp [uniChecks, validateUniShape] :
+  have h1 := key _ (by simp [uniChecks, uniPrefix, validateUniShape] :
     must (s.traceLocal == e.airWidth && s.traceNext == e.airWidth) ∈ uniChecks e s)
-  have h2 := key _ (by simp [uniChecks, validateUniShape] :
+  have h2 := key _ (by simp [uniChecks, uniPrefix, validateUniShape] :
     must (s.quotientChunks.length == 2 ^ e.logQd) ∈ uniChecks e s)
-  have h3 := key _ (by simp [uniChecks, validateUniShape] :
+  have h3 := key _ (by simp [uniChecks, uniPrefix, validateUniShape] :
     must (s.quotientChunks.all (· == e.dim)) ∈ uniChecks e s)
-  have h4 := key _ (by simp [uniChecks] :
+  have h4 := key _ (by simp [uniChecks, uniPrefix] :
     must (s.random.isNone && s.randomCap.isNone) ∈ uniChecks e s)
-  have h5 := key _ (by simp [uniChecks, validateUniShape] :
+  have h5 := key _ (by simp [uniChecks, uniPrefix, validateUniShape] :
     must (s.prepWidth == s.prepLocal.getD 0 && s.prepWidth == s.prepNext.getD 0) ∈ uniChecks e s)
-  have h6 := key _ (by simp [uniChecks, validateUniShape] :
+  have h6 := key _ (by simp [uniChecks, uniPrefix, validateUniShape] :
     must (!(e.prepCommit.isSome && s.prepWidth == 0)) ∈ uniChecks e s)
-  have h7 := key _ (by simp [uniChecks, validateUniShape] :
+  have h7 := key _ (by simp [uniChecks, uniPrefix, validateUniShape] :
     must (!(e.prepCommit.isNone && decide (s.prepWidth > 0))) ∈ uniChecks e s)
-  have h8 := key _ (by simp [uniChecks, friChallengeChecks] :
+  have h8 := key _ (by simp [uniChecks, uniPrefix, friChallengeChecks] :
     must (decide (e.queryPowBits ≤ e.valBits)) ∈ uniChecks e s)
   simp only [Bool.and_eq_true, beq_iff_eq] at h1 h2 h5
   refine ⟨h1.1, h1.2, ?_, ?_, ?_, ?_, by simpa using h8⟩
@@ -222,6 +234,7 @@ theorem uni_ok_validated (e : Env) (s : UniShape) (h : verifyUni e s = .ok) : Va
 structure FriValidated (e : Env) (f : FriShape) : Prop where
   powEq : f.commitCaps.length = f.powWitnesses
   phases : f.logArities.length = f.commitCaps.length
+  arityPos : ∀ la ∈ f.logArities, 1 ≤ la
   somePhase : f.commitCaps ≠ []
   someQuery : f.queries ≠ []
   schedule : ∀ q ∈ f.queries, q.steps = f.logArities
@@ -240,6 +253,8 @@ theorem uni_ok_fri_validated (e : Env) (s : UniShape) (h : verifyUni e s = .ok) 
     must (s.fri.commitCaps.length == s.fri.powWitnesses) ∈ uniChecks e s)
   have g2 := key _ (by simp [uniChecks, friVerifyChecks] :
     must (s.fri.logArities.length == s.fri.commitCaps.length) ∈ uniChecks e s)
+  have g2' := key _ (by simp [uniChecks, friVerifyChecks] :
+    must (s.fri.logArities.all (· != 0)) ∈ uniChecks e s)
   have g3 := key _ (by simp [uniChecks, friVerifyChecks] :
     must (s.fri.queries.length != 0) ∈ uniChecks e s)
   have g4 := key _ (by simp [uniChecks, friVerifyChecks] :
@@ -251,7 +266,11 @@ theorem uni_ok_fri_validated (e : Env) (s : UniShape) (h : verifyUni e s = .ok) 
   have g5' : s.fri.finalPolyLen = 2 ^ e.logFinalPolyLen := by
     simp only [isPow2, Bool.and_eq_true, bne_iff_ne, ne_eq, beq_iff_eq] at g5
     rw [← g5.2, g5.1.2]
-  refine ⟨⟨by simpa using g1, by simpa using g2, ?_, ?_, ?_, g5', by simpa using g6⟩, ?_⟩
+  refine ⟨⟨by simpa using g1, by simpa using g2, ?_, ?_, ?_, ?_, g5', by simpa using g6⟩, ?_⟩
+  · intro la hla
+    have := (List.all_eq_true.mp g2') la hla
+    simp only [bne_iff_ne, ne_eq] at this
+    omega
   · intro hn; simp [hn] at g4
   · intro hn; simp [hn] at g3
   · intro q hq
@@ -279,6 +298,89 @@ theorem uni_malformed_rejected_partial (e : Env) (s : UniShape)
       (uni_ok_fri_validated e s h).2⟩ hbad
   · exact h
   · exact absurd h (uni_no_panic_partial e s hg)
+
+/-! ## Repaired findings (fixes C15-1 and C15-3): proved for every shape, no guard hypothesis -/
+
+theorem run_append (a b : List Check) :
+    run (a ++ b) = match run a with | .ok => run b | o => o := by
+  induction a with
+  | nil => simp [run]
+  | cons c a ih =>
+    simp only [List.cons_append, run]
+    by_cases h : c.holds = true
+    · simp [h, ih]
+    · simp only [h]
+      cases c.kind <;> simp [FailKind.out]
+
+/-- A list of explicit checks (no partial step) one of which fails returns an error, whatever
+follows it. -/
+theorem run_err_of_must_prefix (a b : List Check) (hk : ∀ c ∈ a, c.kind = .err)
+    (hf : ∃ c ∈ a, c.holds = false) : run (a ++ b) = .err := by
+  induction a with
+  | nil => obtain ⟨c, hc, _⟩ := hf; simp at hc
+  | cons c a ih =>
+    simp only [List.cons_append, run]
+    by_cases h : c.holds = true
+    · simp only [h, if_true]
+      apply ih (fun d hd => hk d (List.mem_cons_of_mem _ hd))
+      obtain ⟨d, hd, hdf⟩ := hf
+      rcases List.mem_cons.mp hd with rfl | hd
+      · simp [h] at hdf
+      · exact ⟨d, hd, hdf⟩
+    · simp [h, hk c (List.mem_cons_self ..), FailKind.out]
+
+/-- F9b / F9c repaired: a FRI proof whose commit-phase commitments and PoW witnesses differ in
+number is rejected with an error by `verify_circuit` — for every environment, every shape and
+every set of commitment rounds (before the fix: a slice panic, hypothesis of `PanicGuards`). -/
+theorem fri_pow_mismatch_err (e : Env) (f : FriShape) (rounds : List Round)
+    (h : f.commitCaps.length ≠ f.powWitnesses) : run (friVerifyChecks e f rounds) = .err := by
+  simp [friVerifyChecks, run, must, h, FailKind.out]
+
+/-- F9i (overflow part) repaired: FRI parameters whose sum with the folding schedule does not fit
+a machine word are rejected with an error (before the fix: an arithmetic-overflow panic). -/
+theorem fri_height_overflow_err (e : Env) (f : FriShape) (rounds : List Round)
+    (h1 : f.commitCaps.length = f.powWitnesses) (h2 : sum f.logArities < 2 ^ e.wordBits)
+    (h3 : ¬ logMaxHeight e f < 2 ^ e.wordBits) : run (friVerifyChecks e f rounds) = .err := by
+  simp [friVerifyChecks, run, must, partialStep, h1, h2, h3, FailKind.out]
+
+/-- F9o repaired: a committed matrix taller than the height the folding schedule reaches is
+rejected with an error by `open_input` (before the fix: `log_global_max_height - height`
+underflowed). -/
+theorem open_input_height_err (e : Env) (f : FriShape) (rounds : List Round) (q : QueryShape)
+    (h : ∃ r ∈ rounds, ∃ m ∈ r.mats, logMaxHeight e f < m.1 + e.logBlowup) :
+    run (openInputChecks e f rounds q) = .err := by
+  unfold openInputChecks
+  simp only [List.append_assoc]
+  apply run_err_of_must_prefix
+  · intro c hc
+    simp only [List.mem_flatMap, List.mem_map] at hc
+    obtain ⟨r, _, m, _, rfl⟩ := hc
+    rfl
+  · obtain ⟨r, hr, m, hm, hlt⟩ := h
+    refine ⟨must (decide (m.1 + e.logBlowup ≤ logMaxHeight e f)), ?_, ?_⟩
+    · simp only [List.mem_flatMap, List.mem_map]
+      exact ⟨r, hr, m, hm, rfl⟩
+    · simp only [must, decide_eq_false_iff_not]; omega
+
+/-- Uni-STARK level: once the steps before the PCS go through, a commitments / PoW-witnesses
+mismatch is an error (never a panic, never accepted). -/
+theorem uni_pow_mismatch_err (e : Env) (s : UniShape) (hp : run (uniPrefix e s) = .ok)
+    (h : s.fri.commitCaps.length ≠ s.fri.powWitnesses) : verifyUni e s = .err := by
+  unfold verifyUni uniChecks
+  rw [run_append, hp]
+  exact fri_pow_mismatch_err e s.fri _ h
+
+/-- … and it is never accepted nor a panic of the PCS part, whatever the prefix does: the outcome
+is the prefix's own failure or an error. -/
+theorem uni_pow_mismatch_outcome (e : Env) (s : UniShape)
+    (h : s.fri.commitCaps.length ≠ s.fri.powWitnesses) :
+    verifyUni e s = .err ∨ verifyUni e s = run (uniPrefix e s) := by
+  unfold verifyUni uniChecks
+  rw [run_append]
+  cases hp : run (uniPrefix e s)
+  · exact Or.inl (fri_pow_mismatch_err e s.fri _ h)
+  · exact Or.inr rfl
+  · exact Or.inr rfl
 
 /-! ## Non-vacuity: the honest shapes of the correspondence bases -/
 
@@ -327,3 +429,10 @@ end P3R.C15
 #print axioms P3R.C15.panicGuards_necessary
 #print axioms P3R.C15.uni_malformed_rejected_partial
 #print axioms P3R.C15.honest_shapes_ok
+#print axioms P3R.C15.run_append
+#print axioms P3R.C15.run_err_of_must_prefix
+#print axioms P3R.C15.fri_pow_mismatch_err
+#print axioms P3R.C15.fri_height_overflow_err
+#print axioms P3R.C15.open_input_height_err
+#print axioms P3R.C15.uni_pow_mismatch_err
+#print axioms P3R.C15.uni_pow_mismatch_outcome
